@@ -23,6 +23,12 @@ From verif Require Import lib.Base model.C24_F64 model.C24_StoreSpec model.C24.
 From Coq Require Import Floats.SpecFloat.
 Open Scope N_scope.
 
+(* monomorphic constructors for the generated case files (terms without
+   implicit arguments elaborate much faster) *)
+Definition pz (t : bytes) (z : Z) : bytes * Z := (t, z).
+Definition pd (p : bytes) (s : f64) : dir := (p, s).
+Definition orr (o : op) (r : res) : op * res := (o, r).
+
 (* ------------------------------------------------------------------ *)
 (* the process model *)
 Inductive pevent :=
